@@ -271,7 +271,11 @@ def run_harness(built, h, canary=False):
         gb = bgb
     base = ["cbmc", gb] + CBMC_CHECKS
     if h.unwind is not None:
-        base += ["--unwind", str(h.unwind), "--unwinding-assertions"]
+        base += ["--unwind", str(h.unwind)]
+        if not getattr(h, "no_unwinding_assertions", False):
+            base += ["--unwinding-assertions"]
+        else:
+            base += ["--no-unwinding-assertions"]   # (finite-state effect slices are complete without: DESIGN 2.6)
         # loops of the harness / spec side (set-up over the object heap, frame snapshots) are bounded
         # by the heap size, not by the input bound: give them their own unwinding limit
         hb = getattr(h, "harness_unwind", None) or (int(h.defines.get("HEAP_N", 8)) + 2)
